@@ -1,7 +1,7 @@
 // c32: HTTP range requests against a REAL volume server (mini-cluster kit).
 //
 // Script: executions {"ev":"reset","content":[ints],"gz":bool,"via":"put"|"op"} followed by
-// {"ev":"get","h":{"mal":"<class>"|"" ,"specs":[{"k":"ab"|"a-"|"-n","a":..,"b":..}]},"acc":bool}.
+// {"ev":"get","h":{"mal":"<class>"|"" ,"specs":[{"k":"ab"|"a-"|"-n","a":..,"b":..}]},"af":"<Accept-Encoding form>"}.
 // The driver stores the blob (once per distinct (content, gz, via)), renders the structured
 // Range value as header text, sends the GET and records exactly what came back:
 // status, Content-Encoding, whether the answer was multipart/byteranges, the parts
@@ -152,13 +152,25 @@ func main() {
 	blobs := map[string]*blob{}
 	nextKey := 1
 
-	fetch := func(fid string, rng string, hasRange bool, acc bool) tr.Ev {
+	fetch := func(fid string, rng string, hasRange bool, af string) tr.Ev {
 		req, _ := http.NewRequest("GET", "http://"+vurl+"/"+fid, nil)
 		if hasRange {
 			req.Header.Set("Range", rng)
 		}
-		if acc {
+		switch af {
+		case "none":
+		case "gzip":
 			req.Header.Set("Accept-Encoding", "gzip")
+		case "list":
+			req.Header.Set("Accept-Encoding", "deflate, gzip;q=0.8")
+		case "star":
+			req.Header.Set("Accept-Encoding", "*")
+		case "identity":
+			req.Header.Set("Accept-Encoding", "identity")
+		case "q0":
+			req.Header.Set("Accept-Encoding", "gzip;q=0")
+		default:
+			tr.Fatal("unknown Accept-Encoding form %q", af)
 		}
 		res := tr.Ev{"st": 0, "ce": "", "mp": false, "parts": []interface{}{}, "body": []int{}, "gz": false, "err": false}
 		resp, err := client.Do(req)
@@ -299,8 +311,15 @@ func main() {
 			}
 			h, _ := e["h"].(map[string]interface{})
 			txt, has := render(h)
-			res := fetch(b.fid, txt, has, tr.B(e, "acc"))
-			w.Emit(tr.Ev{"ev": "get", "h": h, "acc": tr.B(e, "acc"), "txt": txt, "res": res})
+			af := tr.S(e, "af")
+			if _, old := e["acc"]; old && af == "" { // scripts recorded before "af" existed
+				af = "none"
+				if tr.B(e, "acc") {
+					af = "gzip"
+				}
+			}
+			res := fetch(b.fid, txt, has, af)
+			w.Emit(tr.Ev{"ev": "get", "h": h, "af": af, "txt": txt, "res": res})
 		}
 	}
 }
